@@ -718,13 +718,22 @@ func (d *delegRun) exec(op *DOp) {
 			d.violate("local-state-undecodable", "LocalState output does not decode")
 			return
 		}
-		var items []string
+		var items, silItems []string
 		keys := map[string]bool{}
 		for _, p := range fs.Parts {
 			keys[p.Key] = true
 			nb := "[]"
 			if s, ok := src.byKey[p.Key]; ok && s.isNfl {
 				nb, _ = nflBatch(p.Data)
+				if why := staleNfl(s, p.Data); why != "" {
+					d.violate("local-state-stale", fmt.Sprintf("LocalState of peer %d, part %q is not the current state: %s", op.From, p.Key, why))
+				}
+			} else if ok {
+				rows, why := d.staleSil(s, p.Data)
+				if why != "" {
+					d.violate("local-state-stale", fmt.Sprintf("LocalState of peer %d, part %q is not the current state: %s", op.From, p.Key, why))
+				}
+				silItems = append(silItems, vh.Pair(vh.Str(p.Key), coqSilRows(rows)))
 			}
 			items = append(items, vh.Pair(vh.Str(p.Key), nb))
 		}
@@ -732,13 +741,25 @@ func (d *delegRun) exec(op *DOp) {
 			d.violate("local-state-incomplete", fmt.Sprintf("LocalState has %d parts for %d registered states", len(fs.Parts), len(src.states)))
 		}
 		vt, _ := d.view(op.From)
-		d.hist = append(d.hist, fmt.Sprintf("(%s, %s, %s, mkOut true %s)", vh.Z(now), vh.Nat(op.From), vh.App("DLocalState", vh.List(items)), vt))
+		d.hist = append(d.hist, fmt.Sprintf("(%s, %s, %s, mkOut true %s)", vh.Z(now), vh.Nat(op.From), vh.App("DLocalState", vh.List(items), vh.List(silItems)), vt))
 		d.tags["local-state"]++
 		d.tags["pushpull"]++
 		if op.Mut != "" {
 			d.tags["pushpull-mutated:"+op.Mut]++
 		}
 		d.deliverBytes(pi, mutate(b, op), "merge", "full state of peer "+fmt.Sprint(op.From))
+		// the receiver of an (unmutated) full state ends up at least as new as the sender's CURRENT store (as its
+		// query API shows it) for everything unexpired, state by state
+		if op.Mut == "" && d.tags["skipped-unrepresentable-time"] == 0 {
+			nowT := time.Now()
+			for _, s := range src.states {
+				if o, ok := pr.byKey[s.key]; ok && o.isNfl == s.isNfl {
+					if k := notCovered(o, s, nowT); k != "" {
+						d.violate("pushpull-receiver-misses-current-version", fmt.Sprintf("after peer %d merged the full state of peer %d, %q: the sender's unexpired item %s is not covered by an item at least as new at the receiver", pi, op.From, s.key, k))
+					}
+				}
+			}
+		}
 	case "craft":
 		fs := &clusterpb.FullState{}
 		for _, ps := range op.Parts {
@@ -863,7 +884,99 @@ func contents(s *stateRT, now time.Time) (all, live map[string]int64) {
 			}
 		}
 	}
+	// update instants as the QUERY API reports them (MarshalBinary only supplies the expiry): what the store
+	// says it holds, not what it chooses to ship
+	if s.isNfl {
+		for _, g := range gkeys {
+			for _, r := range receivers {
+				if es, err := s.log.Query(nflog.QGroupKey(g), nflog.QReceiver(r)); err == nil && len(es) == 1 {
+					k := fmt.Sprintf("%s:%s", g, recvKey(r))
+					t := es[0].Timestamp.AsTime().UnixNano()
+					if _, ok := all[k]; !ok || live[k] != 0 {
+						live[k] = t
+					}
+					all[k] = t
+				}
+			}
+		}
+	} else if sils, _, err := s.sil.Query(context.Background()); err == nil {
+		for _, x := range sils {
+			t := x.UpdatedAt.AsTime().UnixNano()
+			if _, ok := all[x.Id]; !ok {
+				live[x.Id] = t
+			} else if _, l := live[x.Id]; l {
+				live[x.Id] = t
+			}
+			all[x.Id] = t
+		}
+	}
 	return all, live
+}
+
+// staleNfl / staleSil: does a shipped part differ from the store as its query API shows it? ("" = current)
+func staleNfl(s *stateRT, data []byte) string {
+	shipped := map[string]int64{}
+	br := bytes.NewReader(data)
+	for {
+		var e nfpb.MeshEntry
+		if err := protodelim.UnmarshalFrom(br, &e); err != nil {
+			break
+		}
+		if e.Entry != nil && e.Entry.Receiver != nil {
+			shipped[fmt.Sprintf("%s:%s", e.Entry.GroupKey, recvKey(e.Entry.Receiver))] = e.Entry.Timestamp.AsTime().UnixNano()
+		}
+	}
+	for _, g := range gkeys {
+		for _, r := range receivers {
+			k := fmt.Sprintf("%s:%s", g, recvKey(r))
+			es, err := s.log.Query(nflog.QGroupKey(g), nflog.QReceiver(r))
+			t, ok := shipped[k]
+			switch {
+			case err == nil && len(es) == 1 && !ok:
+				return "entry " + k + " is stored but not shipped"
+			case err == nil && len(es) == 1 && t != es[0].Timestamp.AsTime().UnixNano():
+				return fmt.Sprintf("entry %s shipped with timestamp %d, stored %d", k, t, es[0].Timestamp.AsTime().UnixNano())
+			case err != nil && ok:
+				return "entry " + k + " is shipped but not stored"
+			}
+		}
+	}
+	return ""
+}
+
+func (d *delegRun) staleSil(s *stateRT, data []byte) (rows []silRow, why string) {
+	type ver struct{ up, start, end int64 }
+	shipped := map[string]ver{}
+	br := bytes.NewReader(data)
+	for {
+		var e silpb.MeshSilence
+		if err := protodelim.UnmarshalFrom(br, &e); err != nil {
+			break
+		}
+		if e.Silence == nil {
+			continue
+		}
+		shipped[e.Silence.Id] = ver{e.Silence.UpdatedAt.AsTime().UnixNano(), e.Silence.StartsAt.AsTime().UnixNano(), e.Silence.EndsAt.AsTime().UnixNano()}
+		rows = append(rows, silRow{d.canonID(e.Silence.Id), e.Silence.UpdatedAt.AsTime().UnixNano()})
+	}
+	sort.Slice(rows, func(i, j int) bool { return rows[i].id < rows[j].id })
+	stored, _, err := s.sil.Query(context.Background())
+	if err != nil {
+		return rows, ""
+	}
+	if len(stored) != len(shipped) {
+		why = fmt.Sprintf("%d silences stored, %d shipped", len(stored), len(shipped))
+	}
+	for _, x := range stored {
+		v, ok := shipped[x.Id]
+		cur := ver{x.UpdatedAt.AsTime().UnixNano(), x.StartsAt.AsTime().UnixNano(), x.EndsAt.AsTime().UnixNano()}
+		if !ok {
+			why = "silence " + d.canonID(x.Id) + " is stored but not shipped"
+		} else if v != cur {
+			why = fmt.Sprintf("silence %s shipped as (UpdatedAt %d, StartsAt %d, EndsAt %d), stored (%d, %d, %d)", d.canonID(x.Id), v.up, v.start, v.end, cur.up, cur.start, cur.end)
+		}
+	}
+	return rows, why
 }
 
 // notCovered: an unexpired item of a for which b holds nothing at least as new ("" = b covers a)
@@ -933,6 +1046,41 @@ func pickKey(r *vh.Rand, regs []Reg, nfl bool) string {
 		return ""
 	}
 	return vh.Pick(r, ks)
+}
+
+// genServedThenEdited: a full state is served once, THEN the sender's silence is expired / edited in place and its
+// log gets a newer entry for the same key, THEN the full state is served again (to a joining peer, or to the same
+// one): the second payload must be the current state and the receiver must end up with it.
+func genServedThenEdited(r *vh.Rand) *DelegCase {
+	c := &DelegCase{Retention: int64(time.Hour)}
+	np := r.Range(2, 3)
+	for i := 0; i < np; i++ {
+		c.Peers = append(c.Peers, []Reg{{"sil", false}, {"nfl", true}})
+	}
+	add := func(op DOp) { c.Ops = append(c.Ops, op) }
+	a := r.Intn(np)
+	other := func() int { return (a + 1 + r.Intn(np-1)) % np }
+	nsil := r.Range(1, 2)
+	for i := 0; i < nsil; i++ {
+		add(DOp{Kind: "silset", Dt: int64(time.Second), Peer: a, Key: "sil", Sil: -1, Dur: int64(30 * time.Minute)})
+	}
+	add(DOp{Kind: "log", Dt: int64(time.Second), Peer: a, Key: "nfl", Recv: 0, GKey: 0, Firing: []uint64{1}})
+	add(DOp{Kind: "pushpull", Dt: int64(time.Second), Peer: other(), From: a}) // served once
+	rounds := r.Range(1, 2)
+	for k := 0; k < rounds; k++ {
+		dt := vh.Pick(r, []int64{int64(time.Second), int64(time.Minute), int64(10 * time.Minute)})
+		if r.Bool() {
+			add(DOp{Kind: "silexpire", Dt: dt, Peer: a, Key: "sil", Sil: r.Intn(nsil)})
+		} else {
+			add(DOp{Kind: "silset", Dt: dt, Peer: a, Key: "sil", Sil: r.Intn(nsil), Dur: int64(45 * time.Minute)}) // same id, new end
+		}
+		add(DOp{Kind: "log", Dt: int64(time.Second), Peer: a, Key: "nfl", Recv: 0, GKey: 0, Firing: []uint64{1, 2}, Resolved: []uint64{3}})
+		if r.Chance(1, 3) {
+			add(DOp{Kind: "tick", Dt: int64(time.Second), Peer: a})
+		}
+		add(DOp{Kind: "pushpull", Dt: int64(time.Second), Peer: other(), From: a}) // served again
+	}
+	return c
 }
 
 func genDeleg(r *vh.Rand, maxOps int) *DelegCase {
